@@ -34,7 +34,7 @@ def _keyparts(key):
     return _strip(key), ()
 
 
-def literal_sig(obj, depth=5):
+def literal_sig(obj, depth=12):
     """deterministic structural fingerprint of what is embedded in a task (args, kwargs, partials, small objects);
     independent of memory addresses, uuid/hash tokens and set/dict iteration order"""
     from dask._task_spec import Alias, DataNode, GraphNode, Task, TaskRef
@@ -219,7 +219,7 @@ class SimScheduler:
                     extra = hashlib.sha1(np.ascontiguousarray(v).view(np.uint8).tobytes()).hexdigest() + str(v.shape)
                 else:
                     try:
-                        extra = literal_sig(v, 4)[:400]
+                        extra = literal_sig(v, 8)[:2000]
                     except Exception:  # noqa: BLE001
                         extra = type(v).__name__
             elif isinstance(node, Task):
